@@ -2,7 +2,7 @@
 # usage: dev/seeded.sh <seed-dir-name> [extra check args]   e.g. dev/seeded.sh C08-s1
 # applies seeded/<name>/patch.diff to /repo, runs the property's quick check, reverts.
 S=$1; shift
-PROP=$(echo $S | cut -d- -f1)
+PROP=$(echo $S | cut -d- -f1 | sed "s/[a-z]$//")
 cd /repo || exit 9
 git diff --quiet || { echo "/repo dirty"; exit 9; }
 git apply /verif/seeded/$S/patch.diff || { echo "patch does not apply"; exit 9; }
